@@ -2,6 +2,7 @@ package main
 
 import (
 	"fmt"
+	"go/token"
 	"go/types"
 	"strings"
 
@@ -99,6 +100,7 @@ func checkC08(w *World, c *Check, tier string) {
 	c.RuleText = "one obligation per cast site per rule (narrow, prefix) evaluated on all gc architectures; exhaustive over sites"
 	c.Trusted = []string{"go/types type checker and types.SizesFor(gc, arch)", "go/ssa builder (x/tools v0.29.0)", "apcheck c08.go"}
 	checkReflectFallback(w, c)
+	checkViewAliases(w, c)
 	sites := findCastSites(w, c)
 	c.stat("cast_sites", len(sites))
 	c.stat("architectures", len(gcArches))
@@ -343,4 +345,171 @@ func unsafeSources(w *World, v ssa.Value, d int, seen map[ssa.Value]bool) ([]ssa
 		return out, ""
 	}
 	return nil, fmt.Sprintf("%T", v)
+}
+
+// checkViewAliases (C08.alias): in every typed-view helper (func(Item) (*T, error), T a vocabulary struct), the pointer
+// returned for a POINTER case of the type switch is derived from that very pointer — reinterpreted, passed on as a
+// pointer, or pointing at one of its fields — never from a dereferenced copy. "Writes through a pointer view reach the
+// original" holds exactly then; a helper that takes the struct by value (fine for the value cases, which view a copy
+// anyway) silently detaches the pointer case when it is reused for it.
+func checkViewAliases(w *World, c *Check) {
+	item := w.itemIface()
+	n := 0
+	for _, f := range w.Funcs {
+		if f.Parent() != nil || f.Signature.Recv() != nil || len(f.Params) != 1 || f.Signature.Results().Len() != 2 || f.Synthetic != "" || f.TypeParams().Len() > 0 || f.Blocks == nil {
+			continue
+		}
+		if _, ok := types.Unalias(f.Params[0].Type()).Underlying().(*types.Interface); !ok || item == nil || !types.Implements(f.Params[0].Type(), item) {
+			continue
+		}
+		rp, ok := types.Unalias(f.Signature.Results().At(0).Type()).(*types.Pointer)
+		if !ok || !isErrorType(f.Signature.Results().At(1).Type()) {
+			continue
+		}
+		rn := namedOf(rp.Elem())
+		if rn == nil || rn.Obj().Pkg() != w.Types {
+			continue
+		}
+		if _, isStruct := rn.Underlying().(*types.Struct); !isStruct {
+			continue
+		}
+		// pointer cases: comma-ok assertions of the parameter to *S
+		type pcase struct {
+			ptr ssa.Value
+			blk *ssa.BasicBlock // entered when the assertion holds
+			typ types.Type
+		}
+		var cases []pcase
+		for _, b := range f.Blocks {
+			for _, in := range b.Instrs {
+				ta, ok := in.(*ssa.TypeAssert)
+				if !ok || !ta.CommaOk {
+					continue
+				}
+				pt, isPtr := types.Unalias(ta.AssertedType).(*types.Pointer)
+				if !isPtr {
+					continue
+				}
+				if _, isStruct := pt.Elem().Underlying().(*types.Struct); !isStruct {
+					continue
+				}
+				var ptr, okv ssa.Value
+				for _, r := range *ta.Referrers() {
+					if ex, isEx := r.(*ssa.Extract); isEx {
+						if ex.Index == 0 {
+							ptr = ex
+						} else {
+							okv = ex
+						}
+					}
+				}
+				if ptr == nil || okv == nil {
+					continue
+				}
+				for _, r := range *okv.Referrers() {
+					if iff, isIf := r.(*ssa.If); isIf && len(iff.Block().Succs[0].Preds) == 1 {
+						cases = append(cases, pcase{ptr, iff.Block().Succs[0], ta.AssertedType})
+					}
+				}
+			}
+		}
+		if len(cases) == 0 {
+			continue
+		}
+		n++
+		for _, pc := range cases {
+			key := funcName(f) + ":" + typeName(pc.typ)
+			bad := ""
+			nret := 0
+			for _, rb := range returnBlocks(f) {
+				if rb != pc.blk && !pc.blk.Dominates(rb) {
+					continue
+				}
+				ret := rb.Instrs[len(rb.Instrs)-1].(*ssa.Return)
+				if len(ret.Results) != 2 || isNilConst(ret.Results[0]) {
+					continue
+				}
+				nret++
+				if why := notDerivedFromPointer(ret.Results[0], pc.ptr, 0, map[ssa.Value]bool{}); why != "" {
+					bad = fmt.Sprintf("for a %s the helper returns a pointer that does not alias it (%s, at %s): reads through the view look right, but every write through it — the On* callbacks, property copy, Append — lands in a copy and is lost", typeName(pc.typ), why, w.InstrPos(ret))
+				}
+			}
+			if bad != "" {
+				c.bad("C08.alias", key, w.FuncPos(f), bad)
+			} else {
+				c.ok("C08.alias", key, w.FuncPos(f), fmt.Sprintf("%d return(s) alias the given pointer", nret))
+			}
+		}
+	}
+	c.stat("typed_view_helpers_with_pointer_cases", n)
+	c.floor("C08.alias", 20)
+}
+
+// notDerivedFromPointer: "" when v is the pointer p itself, a reinterpretation of it, the address of one of its fields,
+// or the result of a package function that returns a pointer derived from the parameter p is passed as; otherwise why not.
+func notDerivedFromPointer(v, p ssa.Value, depth int, seen map[ssa.Value]bool) string {
+	if v == p || isNilConst(v) {
+		return ""
+	}
+	if depth > 10 || seen[v] {
+		return "cannot trace the returned pointer back to the given one"
+	}
+	seen[v] = true
+	switch x := v.(type) {
+	case *ssa.Convert:
+		return notDerivedFromPointer(x.X, p, depth+1, seen)
+	case *ssa.ChangeType:
+		return notDerivedFromPointer(x.X, p, depth+1, seen)
+	case *ssa.FieldAddr:
+		return notDerivedFromPointer(x.X, p, depth+1, seen)
+	case *ssa.Phi:
+		for _, e := range x.Edges {
+			if why := notDerivedFromPointer(e, p, depth+1, seen); why != "" {
+				return why
+			}
+		}
+		return ""
+	case *ssa.Extract:
+		return notDerivedFromPointer(x.Tuple, p, depth+1, seen)
+	case *ssa.Alloc:
+		return "it is the address of a local copy"
+	case *ssa.Call:
+		g := x.Common().StaticCallee()
+		if g == nil || g.Blocks == nil {
+			return "it comes from a call that is not followed"
+		}
+		// which parameter receives the pointer (as a pointer)?
+		idx := -1
+		for i, a := range x.Common().Args {
+			if notDerivedFromPointer(a, p, depth+1, map[ssa.Value]bool{}) == "" && !isNilConst(a) {
+				if _, isPtr := types.Unalias(a.Type()).Underlying().(*types.Pointer); isPtr {
+					idx = i
+				} else if _, isIface := types.Unalias(a.Type()).Underlying().(*types.Interface); isIface {
+					idx = i
+				}
+			}
+		}
+		if idx < 0 || idx >= len(g.Params) {
+			return fmt.Sprintf("%s is handed a copy of the value, not the pointer", funcName(g))
+		}
+		for _, rb := range returnBlocks(g) {
+			ret := rb.Instrs[len(rb.Instrs)-1].(*ssa.Return)
+			if len(ret.Results) == 0 || isNilConst(ret.Results[0]) {
+				continue
+			}
+			if why := notDerivedFromPointer(ret.Results[0], g.Params[idx], depth+1, seen); why != "" {
+				return "through " + funcName(g) + ": " + why
+			}
+		}
+		return ""
+	case *ssa.MakeInterface:
+		return notDerivedFromPointer(x.X, p, depth+1, seen)
+	case *ssa.TypeAssert:
+		return notDerivedFromPointer(x.X, p, depth+1, seen)
+	case *ssa.UnOp:
+		if x.Op == token.MUL {
+			return "it is made from a dereferenced copy of the value"
+		}
+	}
+	return "it is " + shortVal(v) + ", which is not derived from the given pointer"
 }
